@@ -620,6 +620,48 @@ theorem Inv.addLazy {fs : FS} {s : Repo} (hinv : Inv fs s) (n : Loaded)
     · exact hinv.paths l (List.mem_append_right _ h)
     · subst h; exact hsrc
 
+theorem mem_eraseTbl {tbl : List Loaded} {ns : Str} {l : Loaded} :
+    l ∈ eraseTbl tbl ns ↔ l ∈ tbl ∧ l.ns ≠ ns := by
+  simp [eraseTbl]
+
+/-- the lazy → eager transition: the entry of `n.ns` leaves the lazy table, `n` joins the eager one -/
+theorem Inv.promote {fs : FS} {s : Repo} (hinv : Inv fs s) (n : Loaded) (stale : Bool)
+    (hE : ∀ l ∈ s.typelibs, l.ns ≠ n.ns)
+    (hdeps : ∀ d ∈ n.tl.hdr.deps, DepLoaded s d)
+    (hsrc : n.source = builtinSource ∨ FileAt fs n.source n.tl.hdr) :
+    Inv fs { s with lazy := eraseTbl s.lazy n.ns, typelibs := s.typelibs ++ [n], staleKey := stale } := by
+  have hsub : ∀ l ∈ s.typelibs, l ∈ ({ s with lazy := eraseTbl s.lazy n.ns, typelibs := s.typelibs ++ [n],
+      staleKey := stale } : Repo).typelibs := fun l hl => List.mem_append_left _ hl
+  refine ⟨?_, ?_, ?_, ?_, ?_⟩
+  · simp only [List.map_append, List.map_cons, List.map_nil]
+    rw [List.nodup_append]
+    refine ⟨hinv.nodupE, by simp, ?_⟩
+    intro a ha b hb
+    simp only [List.mem_singleton] at hb
+    subst hb
+    obtain ⟨l, hl, rfl⟩ := List.mem_map.mp ha
+    exact hE l hl
+  · exact (List.filter_sublist.map Loaded.ns).nodup hinv.nodupL
+  · intro l hl l' hl'
+    obtain ⟨hm', hne'⟩ := mem_eraseTbl.mp hl'
+    rcases List.mem_append.mp hl with h | h
+    · exact hinv.disj l h l' hm'
+    · simp only [List.mem_singleton] at h
+      subst h
+      exact hne'.symm
+  · intro l hl d hd
+    rcases List.mem_append.mp hl with h | h
+    · exact (hinv.deps l h d hd).mono hsub
+    · simp only [List.mem_singleton] at h
+      subst h
+      exact (hdeps d hd).mono hsub
+  · intro l hl
+    simp only [List.mem_append, List.mem_singleton] at hl
+    rcases hl with (h | h) | h
+    · exact hinv.paths l (List.mem_append_left _ h)
+    · subst h; exact hsrc
+    · exact hinv.paths l (List.mem_append_right _ (mem_eraseTbl.mp h).1)
+
 /-- the invariant only looks at the two tables -/
 theorem Inv.congr {fs : FS} {s s' : Repo} (hinv : Inv fs s) (h1 : s'.typelibs = s.typelibs)
     (h2 : s'.lazy = s.lazy) : Inv fs s' := by
@@ -689,12 +731,12 @@ theorem status_absent {s : Repo} {ns : Str} {ver : Option Str} {lazy b : Bool}
       simp at h
       exact absurd h (hc l.tl)
 
-/-! ### the use-after-free flag is never reset -/
+/-! ### the ghost flag `staleKey` is never reset -/
 
-def UbMono (req : Req) : Prop := ∀ s dn dv, s.ub = true → (req s dn dv).1.ub = true
+def StaleMono (req : Req) : Prop := ∀ s dn dv, s.staleKey = true → (req s dn dv).1.staleKey = true
 
-theorem loadDeps_ub {req : Req} (h : UbMono req) : ∀ deps s, s.ub = true →
-    (loadDepsWith req s deps).1.ub = true := by
+theorem loadDeps_stale {req : Req} (h : StaleMono req) : ∀ deps s, s.staleKey = true →
+    (loadDepsWith req s deps).1.staleKey = true := by
   intro deps
   induction deps with
   | nil => intro s hs; simpa [loadDepsWith] using hs
@@ -714,8 +756,8 @@ theorem loadDeps_ub {req : Req} (h : UbMono req) : ∀ deps s, s.ub = true →
         | ok t => simp only; exact ih s' hr
         | error e => simpa using hr
 
-theorem register_ub {req : Req} (h : UbMono req) (s : Repo) (src : Str) (lazy : Bool) (tl : Typelib)
-    (hs : s.ub = true) : (registerInternalWith req s src lazy tl).1.ub = true := by
+theorem register_stale {req : Req} (h : StaleMono req) (s : Repo) (src : Str) (lazy : Bool) (tl : Typelib)
+    (hs : s.staleKey = true) : (registerInternalWith req s src lazy tl).1.staleKey = true := by
   unfold registerInternalWith
   cases lazy with
   | true =>
@@ -723,7 +765,7 @@ theorem register_ub {req : Req} (h : UbMono req) (s : Repo) (src : Str) (lazy : 
     split_ifs <;> simpa using hs
   | false =>
     simp only [Bool.false_eq_true, if_false]
-    have hd := loadDeps_ub h tl.hdr.deps s hs
+    have hd := loadDeps_stale h tl.hdr.deps s hs
     cases hq : loadDepsWith req s tl.hdr.deps with
     | mk s1 r =>
       rw [hq] at hd
@@ -732,11 +774,11 @@ theorem register_ub {req : Req} (h : UbMono req) (s : Repo) (src : Str) (lazy : 
       | ok u =>
         simp only
         cases lookupTbl s1.lazy tl.hdr.ns with
-        | some l => simp
+        | some l => simp [hd]
         | none => simpa using hd
 
-theorem require_ub (fs : FS) : ∀ fuel s ns ver lazy path, s.ub = true →
-    (requireInternal fs fuel s ns ver lazy path).1.ub = true := by
+theorem require_stale (fs : FS) : ∀ fuel s ns ver lazy path, s.staleKey = true →
+    (requireInternal fs fuel s ns ver lazy path).1.staleKey = true := by
   intro fuel
   induction fuel with
   | zero => intro s ns ver lazy path hs; simpa [requireInternal] using hs
@@ -754,14 +796,14 @@ theorem require_ub (fs : FS) : ∀ fuel s ns ver lazy path, s.ub = true →
         split_ifs
         · simpa using hs
         · simpa using hs
-        · apply register_ub
+        · apply register_stale
           · intro s' dn dv hs'; exact ih s' dn (some dv) false s'.searchPath hs'
           · simpa using hs
 
 /-! ### what one require / load does to the state -/
 
-/-- old entries stay -/
-def Ext (s s' : Repo) : Prop := (∀ l ∈ s.typelibs, l ∈ s'.typelibs) ∧ (∀ l ∈ s.lazy, l ∈ s'.lazy)
+/-- eagerly loaded entries stay (a lazily loaded one may move to the eager table) -/
+def Ext (s s' : Repo) : Prop := ∀ l ∈ s.typelibs, l ∈ s'.typelibs
 
 /-- new entries have a rank below `bound` -/
 def New (rank : Str → Nat) (s s' : Repo) (bound : Nat) : Prop :=
@@ -775,7 +817,7 @@ structure Post (fs : FS) (rank : Str → Nat) (s s' : Repo) (bound : Nat) : Prop
   path : s'.searchPath = s.searchPath
 
 theorem Post.refl {fs : FS} {rank : Str → Nat} {s : Repo} (h : Inv fs s) (b : Nat) : Post fs rank s s b :=
-  ⟨h, ⟨fun _ h => h, fun _ h => h⟩, ⟨fun _ h => Or.inl h, fun _ h => Or.inl h⟩, rfl⟩
+  ⟨h, fun _ h => h, ⟨fun _ h => Or.inl h, fun _ h => Or.inl h⟩, rfl⟩
 
 theorem Post.weaken {fs : FS} {rank : Str → Nat} {s s' : Repo} {b b' : Nat} (h : Post fs rank s s' b)
     (hb : b ≤ b') : Post fs rank s s' b' :=
@@ -784,26 +826,26 @@ theorem Post.weaken {fs : FS} {rank : Str → Nat} {s s' : Repo} {b b' : Nat} (h
 
 theorem Post.trans {fs : FS} {rank : Str → Nat} {s s1 s2 : Repo} {b : Nat} (h1 : Post fs rank s s1 b)
     (h2 : Post fs rank s1 s2 b) : Post fs rank s s2 b :=
-  ⟨h2.inv, ⟨fun l hl => h2.ext.1 l (h1.ext.1 l hl), fun l hl => h2.ext.2 l (h1.ext.2 l hl)⟩,
+  ⟨h2.inv, fun l hl => h2.ext l (h1.ext l hl),
    ⟨fun l hl => (h2.new.1 l hl).elim (fun x => h1.new.1 l x) Or.inr,
     fun l hl => (h2.new.2 l hl).elim (fun x => h1.new.2 l x) Or.inr⟩,
    h2.path.trans h1.path⟩
 
 /-- contract of the recursive require used for dependencies -/
 def ReqOK (fs : FS) (rank : Str → Nat) (req : Req) : Prop :=
-  ∀ s dn dv, Inv fs s → (req s dn dv).1.ub = false →
+  ∀ s dn dv, Inv fs s → (req s dn dv).1.staleKey = false →
     Post fs rank s (req s dn dv).1 (rank dn + 1) ∧
     (∀ tl, (req s dn dv).2 = .ok tl → ∃ l ∈ (req s dn dv).1.typelibs, l.ns = dn ∧ l.tl.hdr.ver = dv)
 
-theorem ub_false_of {b : Bool} (h : b = true → False) : b = false := by
+theorem bool_false_of {b : Bool} (h : b = true → False) : b = false := by
   cases b with
   | false => rfl
   | true => exact absurd rfl h
 
 theorem loadDeps_post {fs : FS} {rank : Str → Nat} {req : Req} (hreq : ReqOK fs rank req)
-    (hmono : UbMono req) : ∀ deps s bound, Inv fs s →
+    (hmono : StaleMono req) : ∀ deps s bound, Inv fs s →
     (∀ d ∈ deps, ∀ dn dv, splitDep d = some (dn, dv) → rank dn < bound) →
-    (loadDepsWith req s deps).1.ub = false →
+    (loadDepsWith req s deps).1.staleKey = false →
     Post fs rank s (loadDepsWith req s deps).1 bound ∧
     (∀ u, (loadDepsWith req s deps).2 = .ok u → ∀ d ∈ deps, DepLoaded (loadDepsWith req s deps).1 d) := by
   intro deps
@@ -834,8 +876,8 @@ theorem loadDeps_post {fs : FS} {rank : Str → Nat} {req : Req} (hreq : ReqOK f
           exact ⟨(hreq' hub).1.weaken hdn, by intro _ h; cases h⟩
         | ok t =>
           simp only at hub ⊢
-          have hub' : s'.ub = false := ub_false_of (fun h => by
-            have := loadDeps_ub hmono ds s' h
+          have hub' : s'.staleKey = false := bool_false_of (fun h => by
+            have := loadDeps_stale hmono ds s' h
             rw [hub] at this; cases this)
           obtain ⟨hp, hok⟩ := hreq' hub'
           obtain ⟨ip, iok⟩ := ih s' bound hp.inv
@@ -844,7 +886,7 @@ theorem loadDeps_post {fs : FS} {rank : Str → Nat} {req : Req} (hreq : ReqOK f
           intro u hu d' hd'
           rcases List.mem_cons.mp hd' with rfl | hd'
           · obtain ⟨l, hl, h1, h2⟩ := hok t rfl
-            exact ⟨dn, dv, hsd, l, ip.ext.1 l hl, h1, h2⟩
+            exact ⟨dn, dv, hsd, l, ip.ext l hl, h1, h2⟩
           · exact iok u hu d' hd'
 
 theorem Post.congr_left {fs : FS} {rank : Str → Nat} {s0 s s' : Repo} {b : Nat}
@@ -853,15 +895,16 @@ theorem Post.congr_left {fs : FS} {rank : Str → Nat} {s0 s s' : Repo} {b : Nat
   obtain ⟨hi, he, hn, hp⟩ := h
   unfold Ext at he
   unfold New at hn
-  rw [h1, h2] at he hn
+  rw [h1] at he
+  rw [h1, h2] at hn
   exact ⟨hi, he, hn, hp.trans h3⟩
 
 theorem register_post {fs : FS} {rank : Str → Nat} {req : Req} (hreq : ReqOK fs rank req)
-    (hmono : UbMono req) (s : Repo) (src : Str) (lazy : Bool) (tl : Typelib) (hinv : Inv fs s)
+    (hmono : StaleMono req) (s : Repo) (src : Str) (lazy : Bool) (tl : Typelib) (hinv : Inv fs s)
     (hsrc : src = builtinSource ∨ FileAt fs src tl.hdr) (hrank : HdrRanked rank tl.hdr)
     (habsE : lookupTbl s.typelibs tl.hdr.ns = none)
     (habsL : lazy = true → lookupTbl s.lazy tl.hdr.ns = none)
-    (hub : (registerInternalWith req s src lazy tl).1.ub = false) :
+    (hub : (registerInternalWith req s src lazy tl).1.staleKey = false) :
     Post fs rank s (registerInternalWith req s src lazy tl).1 (rank tl.hdr.ns + 1) ∧
     (∀ t, (registerInternalWith req s src lazy tl).2 = .ok t → t = tl ∧
        (lazy = false → ∃ l ∈ (registerInternalWith req s src lazy tl).1.typelibs, l.tl = tl)) := by
@@ -873,7 +916,7 @@ theorem register_post {fs : FS} {rank : Str → Nat} {req : Req} (hreq : ReqOK f
     have hfL := lookupTbl_none.mp hL
     simp only [if_true, hL, Option.isSome_none, Bool.false_eq_true, if_false] at hub ⊢
     rw [insertTbl_fresh s.lazy src tl hfL]
-    refine ⟨⟨hinv.addLazy ⟨src, tl⟩ hfE0 hfL hsrc, ⟨fun _ h => h, fun l hl => List.mem_append_left _ hl⟩,
+    refine ⟨⟨hinv.addLazy ⟨src, tl⟩ hfE0 hfL hsrc, fun _ h => h,
       ⟨fun _ h => Or.inl h, ?_⟩, rfl⟩, ?_⟩
     · intro l hl
       rcases List.mem_append.mp hl with h | h
@@ -898,7 +941,36 @@ theorem register_post {fs : FS} {rank : Str → Nat} {req : Req} (hreq : ReqOK f
       | ok u =>
         simp only at hub ⊢
         cases hL : lookupTbl s1.lazy tl.hdr.ns with
-        | some l => simp [hL] at hub
+        | some l =>
+          -- the lazy → eager transition: `staleKey = false` says the lazily loaded typelib and
+          -- the one registered now have the same header, so the re-used source is right
+          simp only [hL, Bool.or_eq_false_iff, decide_eq_false_iff_not, ne_eq, not_not] at hub ⊢
+          obtain ⟨hub1, hhdr⟩ := hub
+          obtain ⟨hp, hdeps⟩ := hld hub1
+          have hfE : ∀ l ∈ s1.typelibs, l.ns ≠ tl.hdr.ns := by
+            intro l hl heq
+            rcases hp.new.1 l hl with h | h
+            · exact hfE0 l h heq
+            · rw [heq] at h; exact Nat.lt_irrefl _ h
+          obtain ⟨hlm, _⟩ := lookupTbl_some hL
+          rw [insertTbl_fresh s1.typelibs l.source tl hfE]
+          have hsrc' : l.source = builtinSource ∨ FileAt fs l.source tl.hdr := by
+            rw [← hhdr]; exact hp.inv.paths l (List.mem_append_right _ hlm)
+          have hinv' := hp.inv.promote ⟨l.source, tl⟩ (s1.staleKey || decide (¬ l.tl.hdr = tl.hdr)) hfE
+            (hdeps u rfl) hsrc'
+          refine ⟨⟨hinv', fun x hx => List.mem_append_left _ (hp.ext x hx), ⟨?_, ?_⟩, hp.path⟩, ?_⟩
+          · intro x hx
+            rcases List.mem_append.mp hx with h | h
+            · exact (hp.new.1 x h).imp id (fun y => Nat.lt_succ_of_lt y)
+            · right
+              simp only [List.mem_singleton] at h
+              subst h
+              exact Nat.lt_succ_self _
+          · intro x hx
+            exact (hp.new.2 x (mem_eraseTbl.mp hx).1).imp id (fun y => Nat.lt_succ_of_lt y)
+          · intro t ht
+            simp only [Except.ok.injEq] at ht
+            exact ⟨ht.symm, fun _ => ⟨⟨l.source, tl⟩, by simp, rfl⟩⟩
         | none =>
           simp only [hL] at hub ⊢
           obtain ⟨hp, hdeps⟩ := hld hub
@@ -910,7 +982,7 @@ theorem register_post {fs : FS} {rank : Str → Nat} {req : Req} (hreq : ReqOK f
           have hfL := lookupTbl_none.mp hL
           rw [insertTbl_fresh s1.typelibs src tl hfE]
           have hinv' := hp.inv.addEager ⟨src, tl⟩ hfE hfL (hdeps u rfl) hsrc
-          refine ⟨⟨hinv', ⟨fun l hl => List.mem_append_left _ (hp.ext.1 l hl), hp.ext.2⟩, ⟨?_, ?_⟩, hp.path⟩, ?_⟩
+          refine ⟨⟨hinv', fun l hl => List.mem_append_left _ (hp.ext l hl), ⟨?_, ?_⟩, hp.path⟩, ?_⟩
           · intro l hl
             rcases List.mem_append.mp hl with h | h
             · exact (hp.new.1 l h).imp id (fun x => Nat.lt_succ_of_lt x)
@@ -943,7 +1015,7 @@ theorem findFile_fileAt {fs : FS} {ns : Str} {ver : Option Str} {path : List Str
 /-- one `require_internal` under the invariant, for acyclic dependencies -/
 theorem require_post {fs : FS} {rank : Str → Nat} (hr : Ranked fs rank) :
     ∀ fuel s ns ver lazy path, Inv fs s →
-    (requireInternal fs fuel s ns ver lazy path).1.ub = false →
+    (requireInternal fs fuel s ns ver lazy path).1.staleKey = false →
     Post fs rank s (requireInternal fs fuel s ns ver lazy path).1 (rank ns + 1) ∧
     (∀ tl, (requireInternal fs fuel s ns ver lazy path).2 = .ok tl →
       tl.hdr.ns = ns ∧ (∀ v, ver = some v → tl.hdr.ver = v) ∧
@@ -964,8 +1036,8 @@ theorem require_post {fs : FS} {rank : Str → Nat} (hr : Ranked fs rank) :
       obtain ⟨h1, h2, h3⟩ := hok tl htl
       obtain ⟨l, hl, hlt⟩ := h3 rfl
       exact ⟨l, hl, by unfold Loaded.ns; rw [hlt]; exact h1, by rw [hlt]; exact h2 dv rfl⟩
-    have hmono : UbMono (fun s' dn dv => requireInternal fs fuel s' dn (some dv) false s'.searchPath) :=
-      fun s' dn dv hs' => require_ub fs fuel s' dn (some dv) false s'.searchPath hs'
+    have hmono : StaleMono (fun s' dn dv => requireInternal fs fuel s' dn (some dv) false s'.searchPath) :=
+      fun s' dn dv hs' => require_stale fs fuel s' dn (some dv) false s'.searchPath hs'
     unfold requireInternal at hub ⊢
     cases hst : getRegisteredStatus s ns ver lazy with
     | found tl =>
@@ -994,7 +1066,7 @@ theorem require_post {fs : FS} {rank : Str → Nat} (hr : Ranked fs rank) :
         simp only [hfile] at hub ⊢
         have hinv0 : Inv fs { s with nextId := s.nextId + 1 } := hinv.congr rfl rfl
         have hp0 : Post fs rank s { s with nextId := s.nextId + 1 } (rank ns + 1) :=
-          ⟨hinv0, ⟨fun _ h => h, fun _ h => h⟩, ⟨fun _ h => Or.inl h, fun _ h => Or.inl h⟩, rfl⟩
+          ⟨hinv0, fun _ h => h, ⟨fun _ h => Or.inl h, fun _ h => Or.inl h⟩, rfl⟩
         split_ifs at hub ⊢ with hns hver
         · exact ⟨hp0, by intro t h; cases h⟩
         · exact ⟨hp0, by intro t h; cases h⟩
@@ -1019,7 +1091,7 @@ theorem require_post {fs : FS} {rank : Str → Nat} (hr : Ranked fs rank) :
 theorem load_post {fs : FS} {rank : Str → Nat} (hr : Ranked fs rank) (fuel : Nat) (s : Repo) (hdr : Hdr)
     (lazy : Bool) (hinv : Inv fs s) (hrank : HdrRanked rank hdr)
     (hguard : ∀ v, getRegisteredStatus s hdr.ns (some hdr.ver) lazy ≠ .conflict v)
-    (hub : (loadTypelib fs fuel s hdr lazy).1.ub = false) :
+    (hub : (loadTypelib fs fuel s hdr lazy).1.staleKey = false) :
     Post fs rank s (loadTypelib fs fuel s hdr lazy).1 (rank hdr.ns + 1) := by
   have hreqOK : ReqOK fs rank (fun s' dn dv => requireInternal fs fuel s' dn (some dv) false s'.searchPath) := by
     intro s' dn dv hinv' hub'
@@ -1029,11 +1101,11 @@ theorem load_post {fs : FS} {rank : Str → Nat} (hr : Ranked fs rank) (fuel : N
     obtain ⟨h1, h2, h3⟩ := hok tl htl
     obtain ⟨l, hl, hlt⟩ := h3 rfl
     exact ⟨l, hl, by unfold Loaded.ns; rw [hlt]; exact h1, by rw [hlt]; exact h2 dv rfl⟩
-  have hmono : UbMono (fun s' dn dv => requireInternal fs fuel s' dn (some dv) false s'.searchPath) :=
-    fun s' dn dv hs' => require_ub fs fuel s' dn (some dv) false s'.searchPath hs'
+  have hmono : StaleMono (fun s' dn dv => requireInternal fs fuel s' dn (some dv) false s'.searchPath) :=
+    fun s' dn dv hs' => require_stale fs fuel s' dn (some dv) false s'.searchPath hs'
   have hinv0 : Inv fs { s with nextId := s.nextId + 1 } := hinv.congr rfl rfl
   have hp0 : Post fs rank s { s with nextId := s.nextId + 1 } (rank hdr.ns + 1) :=
-    ⟨hinv0, ⟨fun _ h => h, fun _ h => h⟩, ⟨fun _ h => Or.inl h, fun _ h => Or.inl h⟩, rfl⟩
+    ⟨hinv0, fun _ h => h, ⟨fun _ h => Or.inl h, fun _ h => Or.inl h⟩, rfl⟩
   have hsame : getRegisteredStatus { s with nextId := s.nextId + 1 } hdr.ns (some hdr.ver) lazy
       = getRegisteredStatus s hdr.ns (some hdr.ver) lazy := rfl
   unfold loadTypelib at hub ⊢
@@ -1048,32 +1120,32 @@ theorem load_post {fs : FS} {rank : Str → Nat} (hr : Ranked fs rank) (fuel : N
       ⟨s.nextId, hdr⟩ hinv0 (Or.inl rfl) hrank habsE habsL hub
     exact Post.congr_left (s0 := { s with nextId := s.nextId + 1 }) rfl rfl rfl hp
 
-theorem load_ub (fs : FS) (fuel : Nat) (s : Repo) (hdr : Hdr) (lazy : Bool) (hs : s.ub = true) :
-    (loadTypelib fs fuel s hdr lazy).1.ub = true := by
+theorem load_stale (fs : FS) (fuel : Nat) (s : Repo) (hdr : Hdr) (lazy : Bool) (hs : s.staleKey = true) :
+    (loadTypelib fs fuel s hdr lazy).1.staleKey = true := by
   unfold loadTypelib
   simp only
   split
   · simpa using hs
-  · apply register_ub
-    · intro s' dn dv hs'; exact require_ub fs fuel s' dn (some dv) false s'.searchPath hs'
+  · apply register_stale
+    · intro s' dn dv hs'; exact require_stale fs fuel s' dn (some dv) false s'.searchPath hs'
     · simpa using hs
 
-theorem step_ub (fs : FS) (fuel : Nat) (s : Repo) (op : Op) (hs : s.ub = true) : (step fs fuel s op).ub = true := by
+theorem step_stale (fs : FS) (fuel : Nat) (s : Repo) (op : Op) (hs : s.staleKey = true) : (step fs fuel s op).staleKey = true := by
   cases op with
   | prepend d => simpa [step] using hs
-  | require ns ver lazy => exact require_ub fs fuel s ns ver lazy s.searchPath hs
-  | requirePrivate d ns ver lazy => exact require_ub fs fuel s ns ver lazy [d] hs
-  | load hdr lazy => exact load_ub fs fuel s hdr lazy hs
+  | require ns ver lazy => exact require_stale fs fuel s ns ver lazy s.searchPath hs
+  | requirePrivate d ns ver lazy => exact require_stale fs fuel s ns ver lazy [d] hs
+  | load hdr lazy => exact load_stale fs fuel s hdr lazy hs
   | query => simpa [step] using hs
 
-theorem run_ub (fs : FS) (fuel : Nat) : ∀ ops s, s.ub = true → (run fs fuel s ops).ub = true := by
+theorem run_stale (fs : FS) (fuel : Nat) : ∀ ops s, s.staleKey = true → (run fs fuel s ops).staleKey = true := by
   intro ops
   induction ops with
   | nil => intro s hs; simpa [run] using hs
   | cons op ops ih =>
     intro s hs
     simp only [run, List.foldl_cons]
-    exact ih _ (step_ub fs fuel s op hs)
+    exact ih _ (step_stale fs fuel s op hs)
 
 /-- the directories prepended by a history, in call order -/
 def prepends : List Op → List Str
@@ -1082,7 +1154,7 @@ def prepends : List Op → List Str
   | _ :: ops => prepends ops
 
 theorem step_inv {fs : FS} {rank : Str → Nat} (hr : Ranked fs rank) (fuel : Nat) (s : Repo) (op : Op)
-    (hinv : Inv fs s) (hok : OpOk rank s op) (hub : (step fs fuel s op).ub = false) :
+    (hinv : Inv fs s) (hok : OpOk rank s op) (hub : (step fs fuel s op).staleKey = false) :
     Inv fs (step fs fuel s op) ∧
       (step fs fuel s op).searchPath = (prepends [op]).reverse ++ s.searchPath := by
   cases op with
@@ -1102,7 +1174,7 @@ theorem prepends_cons (op : Op) (ops : List Op) : prepends (op :: ops) = prepend
   cases op <;> simp [prepends]
 
 theorem run_inv {fs : FS} {rank : Str → Nat} (hr : Ranked fs rank) (fuel : Nat) : ∀ ops s, Inv fs s →
-    Guarded fs fuel rank s ops → (run fs fuel s ops).ub = false →
+    Guarded fs fuel rank s ops → (run fs fuel s ops).staleKey = false →
     Inv fs (run fs fuel s ops) ∧ (run fs fuel s ops).searchPath = (prepends ops).reverse ++ s.searchPath := by
   intro ops
   induction ops with
@@ -1110,8 +1182,8 @@ theorem run_inv {fs : FS} {rank : Str → Nat} (hr : Ranked fs rank) (fuel : Nat
   | cons op ops ih =>
     intro s hinv hg hub
     simp only [run, List.foldl_cons] at hub ⊢
-    have hub1 : (step fs fuel s op).ub = false := ub_false_of (fun h => by
-      have := run_ub fs fuel ops _ h
+    have hub1 : (step fs fuel s op).staleKey = false := bool_false_of (fun h => by
+      have := run_stale fs fuel ops _ h
       simp only [run] at this
       rw [hub] at this; cases this)
     obtain ⟨hi1, hp1⟩ := step_inv hr fuel s op hinv hg.1 hub1
